@@ -605,7 +605,7 @@ package jd
 //@   cap 250000 3000000
 //@   universe a verifKeyedDocs(TIER)
 //@   universe b verifKeyedDocs(TIER)
-//@   universe options [][]Option{{SetKeys("a")}, {SET, SetKeys("a")}, {MULTISET, SetKeys("a")}}
+//@   universe options [][]Option{{SetKeys("a")}, {SET, SetKeys("a")}, {MULTISET, SetKeys("a")}, {SetKeys("a", "b")}}
 //@   requires validNode(a) && validNode(b) && verifDomain(a, b, options)
 //@   ensures_bounded [C01] verifPatchGives(a, ret0, b, options)
 //@   ensures_bounded [C05] (len(ret0) == 0) == a.Equals(b, options...)
